@@ -5,9 +5,6 @@
 // exactly like its map model, and the caches' own SanityCheck() assertions must hold.
 #include "coins_common.h"
 
-#ifndef PRESENT
-#define PRESENT 1
-#endif
 // operation codes
 #define OP_NONE 0
 #define OP_ADD 1      // child.AddCoin(key, coin, possible_overwrite = coin currently visible)   (minimum the API contract requires)
@@ -22,37 +19,6 @@
 #define OP_PSPEND 10  // parent.SpendCoin(key)
 #define OP_ACCESS 11  // child.AccessCoin(key)
 #define OP_PSYNC 12   // parent.Sync()
-#ifndef OP1
-#define OP1 OP_NONE
-#endif
-#ifndef OP2
-#define OP2 OP_NONE
-#endif
-#ifndef OP3
-#define OP3 OP_NONE
-#endif
-#ifndef OP4
-#define OP4 OP_NONE
-#endif
-#ifndef OP5
-#define OP5 OP_NONE
-#endif
-#ifndef K1
-#define K1 0
-#endif
-#ifndef K2
-#define K2 0
-#endif
-#ifndef K3
-#define K3 0
-#endif
-#ifndef K4
-#define K4 0
-#endif
-#ifndef K5
-#define K5 0
-#endif
-
 static ModelCoin bm[NKEYS], pm[NKEYS], cm[NKEYS];   // views of base, parent, child
 
 static bool same(const std::optional<Coin>& c, const ModelCoin& m)
@@ -103,7 +69,8 @@ static void apply(int op, int k, ModelView& base, CCoinsViewCache& parent, CCoin
     if (op != OP_NONE) check_all(base, parent, child);
 }
 
-extern "C" void h_layers()
+template <int PRESENT, int OP1, int K1, int OP2, int K2, int OP3, int K3, int OP4, int K4, int OP5, int K5>
+static void run()
 {
     ModelView base;
     for (int k = 0; k < NKEYS; k++) {
@@ -120,3 +87,5 @@ extern "C" void h_layers()
     for (int k = 0; k < NKEYS; k++) { verif_observe(cm[k].present); verif_observe((uint64_t)cm[k].value); }
     VREACH("end");
 }
+#define VERIF_ENTRY(name, ...) extern "C" void h_##name() { run<__VA_ARGS__>(); }
+#include VERIF_ENTRIES_INC
